@@ -435,6 +435,7 @@ class World:
         self.faults = {}  # (kind, name) -> set of invocation numbers (1-based) that raise
         self.fault_exc = Injected
         self.all_attrs = {}  # class name -> ordered {attr: attrdesc} incl. inherited
+        self.default_objects = []  # every object written into a class body / Attr / field as a default
         self._build()
 
     # -- callbacks ---------------------------------------------------------
@@ -551,19 +552,19 @@ class World:
                 elif style == "attr_none":
                     ns[a["name"]] = Attr(**flags)
                 elif style == "lit":
-                    ns[a["name"]] = self.realize(d[1])
+                    ns[a["name"]] = self._default_obj(d[1])
                 elif style == "attr_default":
-                    ns[a["name"]] = Attr(default=self.realize(d[1]), **flags)
+                    ns[a["name"]] = Attr(default=self._default_obj(d[1]), **flags)
                 elif style == "attr_factory":
                     ns[a["name"]] = Attr(default_factory=self._factory(d[1]), **flags)
                 elif style == "field_default":
-                    ns[a["name"]] = dataclasses.field(default=self.realize(d[1]))
+                    ns[a["name"]] = dataclasses.field(default=self._default_obj(d[1]))
                 elif style == "field_factory":
                     ns[a["name"]] = dataclasses.field(default_factory=self._factory(d[1]))
                 else:
                     raise AssertionError(d)
             for name, v in (c.get("redefaults") or {}).items():
-                ns[name] = self.realize(v)
+                ns[name] = self._default_obj(v)
             for name, how in (c.get("prepare") or {}).items():
                 ns[f"_prepare_{name}"] = self._preparer("prepare", name, how)
             for name, how in (c.get("prepare_item") or {}).items():
@@ -590,6 +591,11 @@ class World:
             merged = dict(inherited)
             merged.update(own)
             self.all_attrs[c["name"]] = merged
+
+    def _default_obj(self, vdesc):
+        v = self.realize(vdesc)
+        self.default_objects.append(v)
+        return v
 
     def _factory(self, vdesc):
         world = self
@@ -621,6 +627,21 @@ class World:
             out.append(c)
             cur = c["bases"][0] if c["bases"] else None
         return out
+
+    def declared_default(self, attr, cname=None):
+        """The default the descriptor prescribes for `attr` on class cname: nearest class along the MRO
+        that gives the name a value (re-default) or declares it with a default. Returns a default
+        descriptor like ["lit", v] / ["attr_factory", v] / ["none"]."""
+        for c in self.mro_descs(cname):
+            if attr in (c.get("redefaults") or {}):
+                return ["lit", c["redefaults"][attr]]
+            for a in c["attrs"]:
+                if a["name"] == attr:
+                    d = a["default"]
+                    if d[0] in ("none", "attr_none"):
+                        continue  # declared without a default here: an inherited class attribute may still apply
+                    return d
+        return ["none"]
 
     def prepare_kind(self, attr, item=False):
         for c in self.mro_descs():
